@@ -60,6 +60,16 @@ fn join_timeout(a: Arbiter, d: Duration) -> Result<(), ()> {
     rx.recv_timeout(d).map_err(|_| ())
 }
 
+/// the System under test, created through one of its constructors: 0 = `System::new()`,
+/// 1 = `System::with_tokio_rt` with a current-thread runtime, 2 = with a multi-thread runtime
+fn make_system(how: u8) -> actix_rt::SystemRunner {
+    match how % 3 {
+        0 => System::new(),
+        1 => System::with_tokio_rt(|| tokio::runtime::Builder::new_current_thread().enable_all().build().unwrap()),
+        _ => System::with_tokio_rt(|| tokio::runtime::Builder::new_multi_thread().worker_threads(2).enable_all().build().unwrap()),
+    }
+}
+
 // ================================================================================================
 // C09
 // ================================================================================================
@@ -115,6 +125,9 @@ pub struct C09Case {
     /// between the two stop calls (it exists before the second stop is issued)
     #[serde(default)]
     pub arbiter_between: bool,
+    /// constructor of the System (see `make_system`)
+    #[serde(default)]
+    pub sys_rt: u8,
 }
 
 struct SlowDrop(u8);
@@ -144,7 +157,7 @@ pub fn check_c09(c: &C09Case) -> CaseResult {
 }
 
 fn run_c09(c: &C09Case) -> CaseResult {
-    let runner = System::new();
+    let runner = make_system(c.sys_rt);
     let sys = System::current();
     let sys_id = sys.id();
     let mut obs = Obs::new();
@@ -369,6 +382,8 @@ fn run_c09(c: &C09Case) -> CaseResult {
     obs.label_if(c.code != 0, "nonzero-code");
     obs.label_if(c.arbiters.iter().any(|f| matches!(f, Fate::BusyBacklog { .. })), "stop-behind-long-queue");
     obs.label_if(had_between, "arbiter-created-between-two-stops");
+    obs.label_if(c.sys_rt % 3 != 0, "system-with_tokio_rt");
+    obs.label_if(c.sys_rt % 3 == 2, "multi-thread-system-runtime");
     obs.label_if(c.arbiters.iter().any(|f| matches!(f, Fate::CustomRt { .. })), "with_tokio_rt");
     obs.label_if(c.arbiters.iter().any(|f| matches!(f, Fate::CustomRt { slow: true })), "slow-runtime-factory");
     Ok(obs)
@@ -422,6 +437,9 @@ pub struct C10Case {
     /// the sender threads belong to another System (each creates one of its own before sending)
     #[serde(default)]
     pub foreign_senders: bool,
+    /// constructor of the System (see `make_system`)
+    #[serde(default)]
+    pub sys_rt: u8,
 }
 
 #[derive(Clone, Debug)]
@@ -492,7 +510,7 @@ fn run_c10(c: &C10Case) -> CaseResult {
             return Err(Fail::new("harness/setup", "the prior system did not run its task"));
         }
     }
-    let runner = System::new();
+    let runner = make_system(c.sys_rt);
     let sys = System::current();
     let sys_id = sys.id();
     let sh = Arc::new(Shared { next_id: AtomicUsize::new(0), next_nested: AtomicUsize::new(NESTED), starts: Mutex::new(vec![]), after_stop: Mutex::new(vec![]), wrong: Mutex::new(vec![]), stop_sent: AtomicBool::new(false) });
@@ -887,6 +905,7 @@ fn run_c10(c: &C10Case) -> CaseResult {
     obs.label_if(c.prior_system, "second-system-on-this-thread");
     obs.label_if(c.custom_rt && !c.system_arbiter, "with_tokio_rt");
     obs.label_if(c.foreign_senders && nsend >= 2, "senders-of-another-system");
+    obs.label_if(c.sys_rt % 3 != 0, "system-with_tokio_rt");
     obs.label_if(c.prior_system && c.system_arbiter && c.ops.iter().any(|(_, o)| matches!(o, COp::Spawn { k: Kind::Nested })), "current-arbiter-used-in-second-system");
     obs.label_if(!after.is_empty(), "sent-after-stop");
     obs.nontrivial = (sends_total >= 3 && had_stop && !after.is_empty()) || nsend >= 2 || labels.contains(&"panic-or-pend-task");
@@ -927,14 +946,15 @@ pub mod gen {
             prop::bool::weighted(0.25),
             [0u16..300, 0u16..300, 0u16..300],
             prop::bool::weighted(0.5),
+            prop_oneof![3 => Just(0u8), 1 => Just(1u8), 1 => Just(2u8)],
         )
-            .prop_map(|(arbiters, from, code, second, plain_run, jitter, arbiter_between)| {
+            .prop_map(|(arbiters, from, code, second, plain_run, jitter, arbiter_between, sys_rt)| {
                 // a sequenced second stop with the same code cannot be told apart
                 let second = match second {
                     Some(Second::Sequenced { code: c2 }) if c2 == code => Some(Second::Sequenced { code: code.wrapping_add(5) }),
                     s => s,
                 };
-                C09Case { arbiters, from, code, second, plain_run, jitter, arbiter_between }
+                C09Case { arbiters, from, code, second, plain_run, jitter, arbiter_between, sys_rt }
             })
     }
 
@@ -958,7 +978,7 @@ pub mod gen {
             1 => Just(COp::Stop),
             1 => any::<u8>().prop_map(|n| COp::Burst { n }),
         ];
-        (prop::collection::vec((0u8..3, op), 1..12), 1u8..4, prop::bool::weighted(0.3), [0u16..300, 0u16..600], prop::bool::weighted(0.4), prop::bool::weighted(0.3), prop::bool::weighted(0.3))
-            .prop_map(|(ops, senders, system_arbiter, jitter, prior_system, custom_rt, foreign_senders)| C10Case { ops, senders, system_arbiter, jitter, prior_system, custom_rt, foreign_senders })
+        (prop::collection::vec((0u8..3, op), 1..12), 1u8..4, prop::bool::weighted(0.3), [0u16..300, 0u16..600], prop::bool::weighted(0.4), prop::bool::weighted(0.3), prop::bool::weighted(0.3), prop_oneof![3 => Just(0u8), 1 => Just(1u8), 1 => Just(2u8)])
+            .prop_map(|(ops, senders, system_arbiter, jitter, prior_system, custom_rt, foreign_senders, sys_rt)| C10Case { ops, senders, system_arbiter, jitter, prior_system, custom_rt, foreign_senders, sys_rt })
     }
 }
